@@ -1,6 +1,12 @@
 # executed by mkmanifest.py: claim(id, category, technique, level text, level note, design ref)
 NOT_CLAIMED = {}
 
+claim("C01", "fault_enumeration",
+      "history and fault-injection monitor at the parser.parse boundary against a real sqlite database, with the uncached parse as executable model and an offline checker over the database rows",
+      "Generated histories (length 3-12 quick, up to 40 thorough, plus every ordered pair of fault/operation kinds) of parse calls with varying expiration/update flags, module reloads, version changes incl. a .dirty version, clock advances on a virtual clock behind time.time_ns, corrupt entries (empty, truncated, random bytes, pickle of a missing class - each verified not to unpickle), broken table layouts (7 kinds), corrupt/truncated/zero-length/deleted database files and poisoned rows (row for text T under a foreign version holding the tree of T'); after every parse the canonical graph digest is compared with an uncached parse, any escaping exception is a violation, and after every step the database rows are read back: no row for a text with a syntax error, no row holding None.",
+      "only blobs verified not to unpickle are injected; the extension workload ext:fault-after-init omits the reload after file/layout faults",
+      "DESIGN.md section 4, C01")
+
 claim("C03", "exploration",
       "differential reference-model monitor on parser.parse (generated trees, printed text, value comparison)",
       "Thousands of generated expression trees (plus every type-valid ordered operator pair and every literal form) are printed, parsed by the real parser and compared by value with the tree they were printed from; both the committed generated parser and, when its ATN differs, the parser regenerated from the working-tree grammar are monitored. Sampling, not proof: the right level for an unbounded input space.",
